@@ -160,7 +160,7 @@ def check(pid, tier="quick", seed=0, jobs=None, only=None, verbose=False):
             continue            # the path died under a refuted obligation, reported below
         exit_code = max(exit_code, 3)
         lines.append("CHECKER-ERROR vacuous contract: %s" % n["name"])
-    if quals and n_obl == 0:
+    if n_obl == 0 and (quals or only is not None):
         exit_code = max(exit_code, 3)
         lines.append("CHECKER-ERROR zero obligations generated for %s" % pid)
     # An obligation the solvers leave open (typical for a *false* quantified goal: no finite model is
@@ -314,6 +314,9 @@ def check(pid, tier="quick", seed=0, jobs=None, only=None, verbose=False):
         "backends": backends, "solver_s": round(solver_s, 2),
         "sub_queries": sum(len(n["subs"]) for n in named.values()),
         "samples": samples,
+        "slowest": [{"obligation": n["name"], "sub_queries": len(n["subs"]),
+                     "solver_s": round(sum(s.get("time", 0) for s in n["subs"]), 2)}
+                    for n in sorted(named.values(), key=lambda n: -sum(s.get("time", 0) for s in n["subs"]))[:5]],
         "bounded": bounded,
         "known_findings_printed": kf_lines,
         "extraction_notes": sorted(notes),
